@@ -98,37 +98,38 @@ var ErrAbort = errors.New("aborted: disagreement on a facet not judged by this p
 
 // RunStats summarises one executed script (for evidence classes).
 type RunStats struct {
-	Ops              int
-	OpsOnExpired     int // operations applied to an expired-unswept key
-	WritesOnExpired  int // non-read operations applied to an expired-unswept key
-	AutoOverflow     int
-	AutoExpiration   int
-	Loads            int
-	Reloads          int
-	ReloadNotSuccess int
-	DueReads         int
-	BulkMixed        int
-	OverflowDeadline int
-	BoundaryProbes   int
-	CrossedMaximum   bool
-	WeightChanges    int
-	LoweredMaximum   int
-	CascadeEntries   int
-	BigJumps         int
-	SweepChecks      int
-	SweepObligations int
-	QuiesceChecks    int
-	MultiWriteBefore int // >=2 writes to one key between two maintenance runs
-	PendingAddGone   int // replacement/invalidation of a value whose add task was still unprocessed
-	StatsChecks      int
-	SaveLoads        int
-	Bursts           int
-	SaveLoadExpired  int
-	SaveLoadSurvivor int
-	Kinds            []string
-	Known            map[string]int
-	Excluded         map[string]int
-	HooksSeen        map[string]int
+	Ops               int
+	OpsOnExpired      int // operations applied to an expired-unswept key
+	WritesOnExpired   int // non-read operations applied to an expired-unswept key
+	AutoOverflow      int
+	AutoExpiration    int
+	Loads             int
+	Reloads           int
+	ReloadNotSuccess  int
+	DueReads          int
+	BulkMixed         int
+	OverflowDeadline  int
+	BoundaryProbes    int
+	CrossedMaximum    bool
+	WeightChanges     int
+	LoweredMaximum    int
+	CascadeEntries    int
+	BigJumps          int
+	SweepChecks       int
+	SweepObligations  int
+	QuiesceChecks     int
+	MultiWriteBefore  int // >=2 writes to one key between two maintenance runs
+	PendingAddGone    int // replacement/invalidation of a value whose add task was still unprocessed
+	StatsChecks       int
+	SaveLoads         int
+	SupersededRefresh int
+	Bursts            int
+	SaveLoadExpired   int
+	SaveLoadSurvivor  int
+	Kinds             []string
+	Known             map[string]int
+	Excluded          map[string]int
+	HooksSeen         map[string]int
 }
 
 // Runner interprets a script against the cache and the model.
